@@ -26,6 +26,13 @@ func (e *Exec) allowed(pkgPath string) bool {
 		}
 	}
 	for _, a := range e.P.Spec.Allow {
+		if strings.HasPrefix(a, "=") {
+			// "=pkg": this package only, not the packages below it
+			if pkgPath == a[1:] {
+				return true
+			}
+			continue
+		}
 		if pkgPath == a || strings.HasPrefix(pkgPath, a+"/") {
 			return true
 		}
